@@ -199,8 +199,7 @@ Lemma move_loop_conserved c s src uids dst fault :
 Proof.
   revert s fault. induction uids as [|u r IH]; intros s fault G Hd; cbn [copy_loop].
   - split; [reflexivity|intros x []].
-  - destruct (negb (has_msg s src u)); [exact (IH s fault G Hd)|].
-    destruct (fires fault); [split; [reflexivity|intros x []]|].
+  - destruct (fires fault); [split; [reflexivity|intros x []]|].
     specialize (IH (st_move s src u dst) (tick fault) (st_move_good _ _ _ _ G)
                    (box_exists_move _ _ _ _ _ Hd)).
     destruct (copy_loop true (st_move s src u dst) src r dst (tick fault)) as [[s2 tr] f].
@@ -221,8 +220,9 @@ Proof.
   destruct (get_box s src) eqn:Es; [|cbn; intros x [<-|[]]; reflexivity].
   destruct (get_box s dst) eqn:Ed; [|cbn; intros x [<-|[]]; reflexivity].
   assert (Hd : get_box s dst <> None) by (rewrite Ed; discriminate).
-  pose proof (move_loop_conserved c s src uids dst fault G Hd) as H.
-  destruct (copy_loop true s src uids dst fault) as [[s' tr] f]. destruct H as [H1 H2].
+  pose proof (move_loop_conserved c s src (known_uids s src uids) dst fault G Hd) as H.
+  destruct (copy_loop true s src (known_uids s src uids) dst fault) as [[s' tr] f].
+  destruct H as [H1 H2].
   cbn [r_store r_trace]. intros x [<-|Hx]; [exact H1|exact (H2 x Hx)].
 Qed.
 
@@ -377,10 +377,10 @@ Proof.
     destruct (append_loop s b cids fault) as [[[s1 tr] uids] f].
     destruct f; cbn [r_resp]; intros [H|H]; discriminate.
   - destruct (get_box s src), (get_box s dst); try (cbn; auto; fail).
-    destruct (copy_loop false s src uids dst fault) as [[s1 tr] f].
+    destruct (copy_loop false s src (known_uids s src uids) dst fault) as [[s1 tr] f].
     destruct f; cbn [r_resp]; intros [H|H]; discriminate.
   - destruct (get_box s src), (get_box s dst); try (cbn; auto; fail).
-    destruct (copy_loop true s src uids dst fault) as [[s1 tr] f].
+    destruct (copy_loop true s src (known_uids s src uids) dst fault) as [[s1 tr] f].
     destruct f; cbn [r_resp]; intros [H|H]; discriminate.
   - destruct (get_box s b); [|cbn; auto].
     destruct (fires fault); cbn [r_resp]; intros [H|H]; discriminate.
@@ -408,7 +408,6 @@ Lemma copy_loop_good mv s src uids dst fault :
   good s -> let '(s', _, _) := copy_loop mv s src uids dst fault in good s'.
 Proof.
   revert s fault. induction uids as [|u r IH]; intros s fault G; cbn [copy_loop]; [exact G|].
-  destruct (negb (has_msg s src u)); [exact (IH s fault G)|].
   destruct (fires fault); [exact G|].
   assert (G1 : good (if mv then st_move s src u dst else st_copy s src u dst)).
   { destruct mv; [apply st_move_good|apply st_copy_good]; exact G. }
@@ -427,11 +426,11 @@ Proof.
     destruct f; cbn [r_store]; [|exact H]. destruct uids; [exact H|].
     apply st_delete_good. exact H.
   - destruct (get_box s src), (get_box s dst); try exact G.
-    pose proof (copy_loop_good false s src uids dst fault G) as H.
-    destruct (copy_loop false s src uids dst fault) as [[s1 tr] f]. exact H.
+    pose proof (copy_loop_good false s src (known_uids s src uids) dst fault G) as H.
+    destruct (copy_loop false s src (known_uids s src uids) dst fault) as [[s1 tr] f]. exact H.
   - destruct (get_box s src), (get_box s dst); try exact G.
-    pose proof (copy_loop_good true s src uids dst fault G) as H.
-    destruct (copy_loop true s src uids dst fault) as [[s1 tr] f]. exact H.
+    pose proof (copy_loop_good true s src (known_uids s src uids) dst fault G) as H.
+    destruct (copy_loop true s src (known_uids s src uids) dst fault) as [[s1 tr] f]. exact H.
   - destruct (get_box s b); [|exact G]. destruct (fires fault); [exact G|].
     cbn [r_store]. apply st_delete_good. exact G.
   - exact G.
@@ -487,12 +486,7 @@ Lemma move_loop_leaves s src uids dst : src <> dst ->
 Proof.
   intro Hn. revert s. induction uids as [|v r IH]; intro s; cbn [copy_loop fires tick].
   - intros u [[]|H]. exact H.
-  - destruct (has_msg s src v) eqn:Hv; cbn [negb].
-    2:{ specialize (IH s). destruct (copy_loop true s src r dst None) as [[s2 tr] f].
-        intros u [[<-|H]|H]; apply IH; [right|left; exact H|right; exact H].
-        unfold has_msg in Hv. unfold msgs_of. destruct (get_box s src) as [x|]; [|reflexivity].
-        destruct (find_msg (b_msgs x) v); [discriminate|reflexivity]. }
-    specialize (IH (st_move s src v dst)).
+  - specialize (IH (st_move s src v dst)).
     destruct (copy_loop true (st_move s src v dst) src r dst None) as [[s2 tr] f].
     intros u H. apply IH. rewrite (st_move_src _ _ _ _ Hn).
     destruct H as [[<-|H]|H].
@@ -509,9 +503,13 @@ Proof.
   intros Hn. cbn [run_dcmd].
   destruct (get_box s src) as [xs|] eqn:Es; [|cbn; discriminate].
   destruct (get_box s dst) as [xd|] eqn:Ed; [|cbn; discriminate].
-  pose proof (move_loop_leaves s src uids dst Hn) as H.
-  destruct (copy_loop true s src uids dst None) as [[s1 tr] f].
-  cbn [r_store]. intros _ u Hu. apply H. left. exact Hu.
+  pose proof (move_loop_leaves s src (known_uids s src uids) dst Hn) as H.
+  destruct (copy_loop true s src (known_uids s src uids) dst None) as [[s1 tr] f].
+  cbn [r_store]. intros _ u Hu. apply H.
+  destruct (has_msg s src u) eqn:Hk.
+  - left. unfold known_uids. apply filter_In. split; assumption.
+  - right. unfold has_msg in Hk. unfold msgs_of. rewrite Es in *.
+    destruct (find_msg (b_msgs xs) u); [discriminate|reflexivity].
 Qed.
 
 (* ------------------------------------------------------------ examples *)
